@@ -27,6 +27,8 @@ var catalogue = []catEntry{
 	{"LOCK", 1, 2, 2},
 	{"REG", 2, 0, 0},
 	{"REG", 2, 0, 1},
+	{"REG", 1, 0, 1},
+	{"LOCK", 1, 7, 0}, // a lock that never expires
 }
 
 const nCnr = 2
